@@ -287,12 +287,15 @@ def install_subassociation(it, h, sym_status):
                   'harness')
 
     def request_association(it2, h2, a):
+        it2.p.trace.append(('sub-association.request', a[0] if a else None))
         return Obj(CM)
     h.app['request_association'] = request_association
     if 'receive' not in h.app:
         h.app['receive'] = lambda it2, h2, a: (Opaque('response-on-sub-association'), it2.p.fresh_int('pc_id'))
 
     def get_scu(it2, h2, a):
+        it2.p.trace.append(('sub-get-scu', a[1] if len(a) > 1 else None, a[0]))
+
         def service(it3, args, kw):
             it3.p.trace.append(('sub-store', args[0], args[1] if len(args) > 1 else None))
             return sym_status(it3, 'store_status')
